@@ -76,7 +76,8 @@ claim("C14", "exploration",
 claim("C19", "exploration",
       "FmtStr.__eq__/__hash__ and Chunk.__eq__/__hash__ proved against 'equal iff same terminal string' / 'hash is a function of it'; "
       "reflected comparison, dict/set behaviour and eval(repr(f)) decided by a bounded all-pairs suite.",
-      "repr is reflective string building (bounded only); Python's reflected-operator rule assumed.",
+      "repr is reflective string building (bounded only); Python's reflected-operator rule assumed; known finding: repr of a formatted "
+      "run whose text contains ESC[ does not evaluate back to the same characters.",
       "contract-based deductive verification (==/hash) + bounded all-pairs checking", "DESIGN 9/C19")
 
 claim("C05", "exploration",
